@@ -479,7 +479,11 @@ def search(ctx, big):
     n_obj = ctx.n(8, 120) * mult
     for cls in obj_classes:
         for i in range(n_obj):
-            case = F.gen_obj_case(rng, obj_classes, field=F.FIELDS[i % 4], first_cls=cls)
+            case = F.gen_obj_case(rng, obj_classes, field=F.FIELDS[i % 4], first_cls=cls,
+                                  battery="many" if i % 8 == 7 else None)
+            ctx.bump(f"object-forms:scale={case['scale']:g}")
+            if len(case["sources"]) >= 4:
+                ctx.bump("object-forms:>=4-sources")
             res = F.run_case(case)
             ctx.case(("obj", json.dumps(case, sort_keys=True)), True)
             ctx.bump("object-forms:" + cls)
@@ -495,7 +499,7 @@ def search(ctx, big):
         case = F.gen_obj_case(rng, obj_classes, field=F.FIELDS[i % 4])
         case["kind"] = "dataframe"
         if i % 3 == 0:
-            case["pixel_agg"] = rng.choice(["mean", "max"])
+            case["pixel_agg"] = rng.choice(F.AGGS)
         if i % 4 == 0:
             case["sumup"] = True
         res = F.run_case(case)
@@ -554,7 +558,7 @@ def search(ctx, big):
         ctx.add_broken("broken-correspondence", "magpylib.core.__all__",
                        f"core functions {sorted(core.__all__)} vs covered {sorted(F.CORE_FUNCTIONS)}")
     for cls in F.CORE_CLASSES:
-        regions = ["segment", "segment-r1=0", "full-ring", "full-solid"] if cls == "CylinderSegment" else [None]
+        regions = ["segment", "segment-r1=0", "full-ring", "full-solid", "near-full"] if cls == "CylinderSegment" else [None]
         for i in range(ctx.n(32, 300) * mult * (2 if cls == "CylinderSegment" else 1)):
             case = F.gen_core_case(rng, cls, region=regions[i % len(regions)])
             if regions[0]:
